@@ -17,3 +17,16 @@ func VerifC19QuietBadger() {
 		l.SetOutput(ioutil.Discard)
 	}
 }
+
+// VerifC19Release is called by the C19 harness AFTER Close() of a store it will never touch again.
+// NewBadgerDB starts `go database.badgerGc()`, a goroutine with a 10-minute ticker that never ends and
+// keeps the BadgerDB (and through it the closed badger.DB with its 20 MB memtable arena) reachable for
+// ever; a search that opens 10^5 stores runs out of memory. Dropping the references lets the collector
+// reclaim the closed store; dbCounts = 0 makes the leaked goroutine's loop body a no-op (it would
+// otherwise call RunValueLogGC on a closed store whose directory is gone). No effect on an open store.
+func VerifC19Release(d DB) {
+	if b, ok := d.(*BadgerDB); ok {
+		b.dbCounts = 0
+		b.dbs = nil
+	}
+}
